@@ -69,6 +69,18 @@ func msgValue(id int, n int) []byte {
 	return pad(p, n)
 }
 
+// idOfRec identifies the submitted message a record belongs to: by its value, or - for a tombstone - by its key.
+func idOfRec(key, val []byte) int {
+	if len(val) == 0 && len(key) >= 3 && key[0] == 'T' {
+		if i := bytes.IndexByte(key, '|'); i > 1 {
+			if n, err := strconv.Atoi(string(key[1:i])); err == nil {
+				return n
+			}
+		}
+	}
+	return idOfValue(val)
+}
+
 func idOfValue(v []byte) int {
 	if len(v) < 3 || v[0] != 'm' {
 		return -1
@@ -216,6 +228,7 @@ type prodScen struct {
 	pending  int
 	produceReqs int
 	handle  interface{} // the producer under test (for the epoch observation)
+	reusable []*sarama.ProducerMessage // message objects returned on Successes() that the application may recycle
 	epoch0  int
 }
 
@@ -339,9 +352,6 @@ func scenProducer(r *run) {
 func (ps *prodScen) newMessage(op *cf.Op, seq int) (*sarama.ProducerMessage, *msgInfo) {
 	mi := &msgInfo{op: op, id: op.ID, actor: op.Actor, seq: seq, wireUs: -1}
 	mi.val = msgValue(op.ID, op.ValLen)
-	if op.ValLen == -2 {
-		mi.val = nil // never used for identified messages
-	}
 	if op.KeyLen >= 0 {
 		mi.key = pad("k"+strconv.Itoa(op.KeyID), op.KeyLen)
 		if op.KeyLen == 0 {
@@ -349,7 +359,27 @@ func (ps *prodScen) newMessage(op *cf.Op, seq int) (*sarama.ProducerMessage, *ms
 		}
 	}
 	m := &sarama.ProducerMessage{Topic: op.Topic, Partition: op.Partition, Metadata: mi}
-	m.Value = sarama.ByteEncoder(mi.val)
+	if op.Arg == "reuse" {
+		// the application recycles a message object it got back on Successes() (every field is set afresh)
+		ps.mu.Lock()
+		if n := len(ps.reusable); n > 0 {
+			old := ps.reusable[n-1]
+			ps.reusable = ps.reusable[:n-1]
+			delete(ps.byPtr, old)
+			old.Topic, old.Partition, old.Metadata = op.Topic, op.Partition, mi
+			old.Key, old.Value, old.Headers, old.Timestamp, old.Offset = nil, nil, nil, time.Time{}, 0
+			m = old
+			ps.r.probe("message-object-reused")
+		}
+		ps.mu.Unlock()
+	}
+	if op.ValLen == -2 {
+		// a tombstone: no value at all; the message is identified by its key instead
+		mi.val = nil
+		mi.key = []byte("T" + strconv.Itoa(op.ID) + "|")
+	} else {
+		m.Value = sarama.ByteEncoder(mi.val)
+	}
 	if mi.key != nil {
 		m.Key = sarama.ByteEncoder(mi.key)
 	}
@@ -561,6 +591,9 @@ func (ps *prodScen) onEvent(m *sarama.ProducerMessage, err error) {
 	k := ps.r.k
 	ps.mu.Lock()
 	mi := ps.byPtr[m]
+	if mi != nil && err == nil && len(ps.reusable) < 4 {
+		ps.reusable = append(ps.reusable, m) // (inside the existing critical section: no extra scheduling point)
+	}
 	ps.mu.Unlock()
 	if mi == nil {
 		ps.r.violate("C01.foreign-event", "event (err=%v) for a message the application did not submit: topic=%q partition=%d flags/metadata=%v", err, m.Topic, m.Partition, m.Metadata)
@@ -734,7 +767,7 @@ func (ps *prodScen) onProduce(br *mbroker, c *simConn, ver int16, frameLen int, 
 			for _, rec := range b.recs {
 				n++
 				kv += len(rec.key) + len(rec.val)
-				id := idOfValue(rec.val)
+				id := idOfRec(rec.key, rec.val)
 				ids = append(ids, strconv.Itoa(id))
 				mi := ps.msgs[id]
 				if mi == nil {
@@ -984,7 +1017,7 @@ func (ps *prodScen) judge() {
 			lastID := map[int]int{}
 			for _, b := range p.batches {
 				for _, rec := range b.recs {
-					id := idOfValue(rec.val)
+					id := idOfRec(rec.key, rec.val)
 					mi := ps.msgs[id]
 					if mi == nil {
 						r.violate("C04.extra-record", "log %s@%d holds a record that is no submitted message (key=%q value=%q)", p.key(), rec.offset, rec.key, trunc(rec.val))
@@ -1037,11 +1070,11 @@ func (ps *prodScen) judge() {
 				continue
 			}
 			rec := findOffset(p, ev.offset)
-			if rec == nil || idOfValue(rec.val) != mi.id {
+			if rec == nil || idOfRec(rec.key, rec.val) != mi.id {
 				cls := ""
 				got := "nothing"
 				if rec != nil {
-					got = fmt.Sprintf("m%d", idOfValue(rec.val))
+					got = fmt.Sprintf("m%d", idOfRec(rec.key, rec.val))
 				}
 				cls = ps.historyClass()
 				if logHas(p, mi.id) {
@@ -1158,7 +1191,7 @@ func findOffset(p *mpart, off int64) *mrec {
 func logHas(p *mpart, id int) bool {
 	for _, b := range p.batches {
 		for _, r := range b.recs {
-			if idOfValue(r.val) == id {
+			if idOfRec(r.key, r.val) == id {
 				return true
 			}
 		}
